@@ -35,21 +35,21 @@ def describe_obj(v):
 
 
 def describe_array(a, fields, getcol):
-    from harness.backends import sig_from_names
+    import vector._methods as M
+    names = {M.AzimuthalXY: "xy", M.AzimuthalRhoPhi: "rhophi", M.LongitudinalZ: "z", M.LongitudinalTheta: "theta",
+             M.LongitudinalEta: "eta", M.TemporalT: "t", M.TemporalTau: "tau"}
     fl = "m" if isinstance(a, vector.Momentum) else "g"
-    coord = [f for f in fields if GEN.get(f, f) in ("x", "y", "rho", "phi", "z", "theta", "eta", "t", "tau")]
     dim = 2 if isinstance(a, vector.Vector2D) else 3 if isinstance(a, vector.Vector3D) else 4 if isinstance(a, vector.Vector4D) else 0
     if dim == 0:
         return "TypeError"
-    sig = sig_from_names(coord)
-    # slots in canonical order az, lon, tmp
-    order = list(C.signames(sig)) if "?" not in sig else []
-    slots = []
-    for g in order:
-        f = [c for c in coord if GEN.get(c, c) == g][0]
+    sig = [names[M._aztype(a)]] + ([names[M._ltype(a)]] if dim >= 3 else []) + ([names[M._ttype(a)]] if dim >= 4 else [])
+    slots, used = [], []
+    for g in C.signames(tuple(sig)):
+        f = [c for c in fields if GEN.get(c, c) == g][0]
+        used.append(f)
         slots.append(BYVAL.get(float(getcol(f)), "?"))
-    extra = [f for f in fields if f not in coord]
-    return f"ok {fl} {dim} {sigstr(sig)} | {','.join(slots)} | {','.join(extra) if extra else '-'}"
+    extra = [BYVAL.get(float(getcol(f)), f) for f in fields if f not in used]
+    return f"ok {fl} {dim} {sigstr(tuple(sig))} | {','.join(slots)} | {','.join(extra) if extra else '-'}"
 
 
 def sigstr(sig):
